@@ -42,11 +42,11 @@ const c18hDayNs = int64(24 * time.Hour)
 // configuration): the texts as they stand in the document.
 type c18hSched struct {
 	zone    string
-	noZone  bool         // no "time_zone" key: loads as UTC
+	noZone  bool          // no "time_zone" key: loads as UTC
 	days    [7]*[2]string // start, end number texts; nil = day absent
-	order   []int        // document order of the days that are present
-	endFrst [7]bool      // "end" written before "start"
-	zoneEnd bool         // "time_zone" written after the days
+	order   []int         // document order of the days that are present
+	endFrst [7]bool       // "end" written before "start"
+	zoneEnd bool          // "time_zone" written after the days
 }
 
 var c18hPlain = regexp.MustCompile(`^([+-]?)([0-9]*)(?:\.([0-9]*))?$`)
@@ -411,18 +411,18 @@ func (in *c18hInit) build() (bs *BlockedServices, err error) {
 
 // c18hObs is what is observed after a request.
 type c18hObs struct {
-	status  int
-	getOK   bool
-	ids     []string
-	zone    string
-	days    [7]*[2]string
-	ranges  [7][2]int64
-	exact   bool
-	probes  []bool
-	offs    []int
-	applied []string
-	appKind string // "", "paused", "active": Contains before and after the call agree
-	constWk bool   // GET reports an all-full or all-empty week
+	status   int
+	getOK    bool
+	ids      []string
+	zone     string
+	days     [7]*[2]string
+	ranges   [7][2]int64
+	exact    bool
+	probes   []bool
+	offs     []int
+	applied  []string
+	appKind  string // "", "paused", "active": Contains before and after the call agree
+	constWk  bool   // GET reports an all-full or all-empty week
 	panicked string
 }
 
@@ -603,7 +603,7 @@ func c18hMonitor(op *c18hOp, prev, cur *c18hObs, instants []time.Time) (msg, key
 		return "GET /control/blocked_services/get gave no schedule", "http-get-failed"
 	}
 	if op != nil && cur.status != op.want {
-		return fmt.Sprintf("%s answered %d, the property expects %d", op.kind, cur.status, op.want), "http-status-" + op.kind
+		return fmt.Sprintf("%s with body %s answered %d, the property expects %d", op.kind, op.body, cur.status, op.want), "http-status-" + op.kind
 	}
 	switch {
 	case op == nil:
@@ -704,7 +704,7 @@ type c18hInvolved struct {
 func c18hRunHistory(t *testing.T, out *vfOut, r *vfRand, in *c18hInit, ops []*c18hOp, extra ...string) {
 	bs, err := in.build()
 	if err != nil {
-		out.Class("skipped-http-init-error")
+		c18hInitFailed(out, in, err)
 		return
 	}
 	d, err := New(&Config{BlockedServices: bs, ConfigModified: func() {}}, nil)
@@ -956,6 +956,95 @@ func c18hRandOp(r *vfRand, pool, unknown []string) *c18hOp {
 	}
 }
 
+// c18hInitFailed: the configuration document of a history was refused.  The
+// property says a document with validated ranges in a zone the tz database
+// has is read; the case is the document handed to the model's decoder.
+func c18hInitFailed(out *vfOut, in *c18hInit, err error) {
+	if in.how != "yaml" && in.how != "json" {
+		out.Class("skipped-http-init-error")
+		return
+	}
+	_, lerr := time.LoadLocation(in.zone)
+	valid := lerr == nil
+	for _, rg := range in.ranges {
+		valid = valid && c18hRangeOK(rg[0], rg[1])
+	}
+	code := c18hDocErrCode(err)
+	if code == -2 {
+		out.Class("skipped-http-init-error")
+		return
+	}
+	msg, key := "", ""
+	if valid {
+		msg = fmt.Sprintf("configuration document (%s) with validated ranges in zone %q, which the tz database has, is refused: %v; document %s",
+			in.how, in.zone, err, strings.TrimSpace(in.doc))
+		key = "config-refused-" + in.how
+	}
+	out.Emit(vfCase{
+		Coq: vfApp("C18.CZoneDoc", vfBool(in.how == "yaml"), vfBytes(in.zone), vfBool(lerr == nil), in.coqFields(), vfZ(code),
+			vfBytes(""), "(@nil (Z * Z))", vfBytes(""), vfList("text_day", nil)),
+		Nontrivial: true, Classes: []string{"config-doc-refused"},
+		MonitorOK: msg == "", MonitorMsg: msg, FindingKey: key,
+		Desc: map[string]any{"kind": "config-document", "form": in.how, "zone": in.zone, "doc": in.doc, "err": fmt.Sprint(err)},
+	})
+}
+
+// c18hDocErrCode maps a decoder error to the model's code: 200 zone, 10*day +
+// range error; -2 anything else.
+func c18hDocErrCode(err error) int64 {
+	if err == nil {
+		return -1
+	}
+	msg := err.Error()
+	if strings.Contains(msg, "unknown time zone") || strings.Contains(msg, "invalid location name") {
+		return 200
+	}
+	day := int64(-1)
+	for i := 0; i < 7; i++ {
+		if strings.Contains(msg, "weekday "+time.Weekday(i).String()+":") {
+			day = int64(i)
+		}
+	}
+	if day < 0 {
+		return -2
+	}
+	code := int64(0)
+	switch {
+	case strings.Contains(msg, ": start ") && strings.Contains(msg, "is negative"):
+		code = 1
+	case strings.Contains(msg, ": end ") && strings.Contains(msg, "is negative"):
+		code = 2
+	case strings.Contains(msg, "is greater or equal to end"):
+		code = 3
+	case strings.Contains(msg, ": start ") && strings.Contains(msg, "is greater or equal to"):
+		code = 4
+	case strings.Contains(msg, ": end ") && strings.Contains(msg, "is greater than"):
+		code = 5
+	case strings.Contains(msg, ": start ") && strings.Contains(msg, "isn't rounded"):
+		code = 6
+	case strings.Contains(msg, ": end ") && strings.Contains(msg, "isn't rounded"):
+		code = 7
+	}
+	return 10*day + code
+}
+
+// coqFields: the duration texts of the configuration document build() writes,
+// in document order.
+func (in *c18hInit) coqFields() string {
+	var fs []string
+	for d, rg := range in.ranges {
+		if rg[0] == 0 && rg[1] == 0 {
+			continue
+		}
+		st, en := c18hMs(rg[0]), c18hMs(rg[1])
+		if in.how == "yaml" {
+			st, en = time.Duration(rg[0]).String(), time.Duration(rg[1]).String()
+		}
+		fs = append(fs, "("+vfNat(d)+", false, "+vfBytes(st)+")", "("+vfNat(d)+", true, "+vfBytes(en)+")")
+	}
+	return vfList("field", fs)
+}
+
 func c18hWeek(s, e int64) (rs [7][2]int64) {
 	for d := range rs {
 		rs[d] = [2]int64{s, e}
@@ -1044,6 +1133,7 @@ func TestVerifC18(t *testing.T) {
 		c18hRunHistory(t, out, r, in, ops)
 	}
 
-	// ---- the request side: ApplyAdditionalFiltering with a client table
-	c18rRun(t, out, pool, unknown)
+	// ---- every zone of the host: configuration documents through
+	// BlockedServices, and update / get through the handlers
+	c18hAllZones(t, out, pool)
 }
